@@ -89,6 +89,10 @@ def count_bad(name, statuses):
     return alarm and not is_residual(name)
 
 
+class Stale(Exception):
+    """the corpus entry was written against an older /repo: it says nothing about the checks"""
+
+
 class Tree:
     """scratch worktree of /repo with harmless/<name>.diff applied"""
 
@@ -100,10 +104,12 @@ class Tree:
         sh(f"git -C {REPO} worktree remove --force {self.wt}")
         shutil.rmtree(self.wt, ignore_errors=True)
         self.wt.parent.mkdir(parents=True, exist_ok=True)
-        r = sh(f"git -C {REPO} worktree add --detach {self.wt} HEAD && git -C {self.wt} apply {HARM / (self.name + '.diff')}")
+        d = HARM / (self.name + ".diff")
+        r = sh(f"git -C {REPO} worktree add --detach {self.wt} HEAD && (git -C {self.wt} apply {d} || git -C {self.wt} apply --3way {d})")
         if r.returncode != 0:
             self.__exit__(None, None, None)
-            raise RuntimeError(f"{self.name}: could not apply: {r.stderr[-400:]}")
+            raise Stale(f"{self.name}: the diff no longer applies to /repo HEAD (regenerate it: harmless/make_corpus.py {self.name}): "
+                        f"{r.stderr.strip().splitlines()[-1][:200] if r.stderr.strip() else ''}")
         return self.wt
 
     def __exit__(self, *exc):
@@ -331,6 +337,14 @@ def report(cols):
 # ------------------------------------------------------------------------------------------------ main
 
 def main():
+    try:
+        return _main()
+    except Stale as e:
+        print(f"STALE {e}")
+        return 3
+
+
+def _main():
     import signal
     # a terminated run must still remove its scratch worktrees and put the unchanged tree's generated files back
     signal.signal(signal.SIGTERM, lambda *_: sys.exit(143))
@@ -348,6 +362,12 @@ def main():
     if a.mode == "report":
         return report([(c.split("=", 1)[0], c.split("=", 1)[1].split(",")) for c in a.cols.split(";") if c])
     names = corpus(a.names)
+    # an entry written against an older /repo whose diff no longer applies says nothing about the checks: it is reported and skipped
+    stale = [n for n in names if sh(f"git -C {REPO} apply --check {HARM / (n + '.diff')}").returncode != 0
+             and sh(f"git -C {REPO} apply --check --3way {HARM / (n + '.diff')}").returncode != 0]
+    for n in stale:
+        print(f"{n:28s} STALE: the diff no longer applies to /repo HEAD — regenerate it (harmless/make_corpus.py {n})", flush=True)
+    names = [n for n in names if n not in stale]
     out_path = Path(a.out) if a.out else HARM / f"results_{a.mode}.json"
     results = {}
     if out_path.exists() and a.names:
@@ -473,8 +493,8 @@ def main():
                 translate(REPO, GEN)
     finally:
         shutil.rmtree(scratch, ignore_errors=True)
-    print(f"\n{len(names)} rewrites, {bad} with an alarm ({a.mode} mode) -> {out_path}")
-    return 1 if bad else 0
+    print(f"\n{len(names)} rewrites, {bad} with an alarm ({a.mode} mode)" + (f", {len(stale)} stale" if stale else "") + f" -> {out_path}")
+    return 1 if (bad or stale) else 0
 
 
 if __name__ == "__main__":
